@@ -39,6 +39,8 @@ func draw(t *rapid.T) BoundCase {
 		opts = sim.NetOpts{MaxForkHeight: rapid.SampledFrom([]int{6, 10, 16}).Draw(t, "forkSpan")}
 	case rule == "v2-ephemeral-parent-maturity":
 		opts = sim.NetOpts{MaxForkHeight: rapid.SampledFrom([]int{0, 3, 6}).Draw(t, "forkSpan"), EphemeralNear: 5}
+	case rule == "v1-devaddr-override-timelock":
+		opts = sim.NetOpts{MaxForkHeight: rapid.SampledFrom([]int{2, 5, 20}).Draw(t, "forkSpan"), V1Only: true, DevTimelock: true}
 	case strings.HasPrefix(rule, "v1-"):
 		opts = sim.NetOpts{MaxForkHeight: rapid.SampledFrom([]int{4, 10, 20}).Draw(t, "forkSpan"), V1Only: true}
 	default:
